@@ -50,7 +50,10 @@ TrNormCmp ==
            nb == Text(e.b) IN
        \* (the harness compares only strings the library ACCEPTED; one the specification rejects must not get here)
        IF ~(IsValid(e.a) /\ IsValid(e.b)) THEN DonePure(<< <<"C13.result", FALSE>> >>, {"NormCmp"}) ELSE
-       DonePure(<< <<"C13.eq", e.res.eq = (na = nb)>>,
+       DonePure(<< <<"C13.eq", e.res.eq = (na = nb) /\ (HasF(e.res, "ne") => e.res.ne = (na # nb))>>,
+                   \* the comparison OPERATORS agree with the ordering (each may be overridden separately)
+                   <<"C13.ord", HasF(e.res, "lt") => (/\ e.res.lt = (LexCmp(na, nb) < 0) /\ e.res.le = (LexCmp(na, nb) <= 0)
+                                                      /\ e.res.gt = (LexCmp(na, nb) > 0) /\ e.res.ge = (LexCmp(na, nb) >= 0))>>,
                    <<"C13.ord", e.res.ord = LexCmp(na, nb) /\ e.res.pord = LexCmp(na, nb)>>,
                    <<"C13.hash", (na = nb) => e.res.hashEq>>,
                    <<"C13.clone", e.res.cloneEq>>,
@@ -297,6 +300,11 @@ TrDraws ==
              <<"C15.digitFrequency", \A d \in 0..9 : LET f == count(LAMBDA x : x = d) IN 20 * f >= total /\ 20 * f <= 3 * total>>,
              \* no position is tied to another one: two positions carry the same digit in about a tenth of the cards
              \* (bound: a quarter; with n >= 200 cards more than 7 standard deviations away).  Cards of up to 110 digits.
+             \* at every single position every digit turns up, none more than a quarter of the time (expected a tenth;
+             \* with n >= 256 cards "never" has probability 2 * 10^-12 per position and digit)
+             <<"C15.digitPerPosition", (Len(e.obs[1]) <= 130 /\ n >= 256) =>
+                  \A p \in 1..Len(e.obs[1]), d \in 0..9 :
+                      LET f == Cardinality({k \in 1..n : e.obs[k][p] = d}) IN f >= 1 /\ 4 * f <= n>>,
              <<"C15.digitPositions", (Len(e.obs[1]) <= 110 /\ n >= 200) =>
                   \A p \in 1..Len(e.obs[1]), q \in 1..Len(e.obs[1]) :
                       p < q => 4 * Cardinality({k \in 1..n : e.obs[k][p] = e.obs[k][q]}) <= n>> >>
